@@ -48,6 +48,16 @@ func (c *ctx) try(op string, info vt.Ev, f func()) (ok bool) {
 	return true
 }
 
+// abandon ends the recording after a library call failed to return: the event is written, the files are closed and
+// the process exits (the stuck goroutines cannot be stopped any other way). The specification rejects the event.
+func (c *ctx) abandon(e vt.Ev) {
+	e["cfg"] = c.cfg
+	c.w.Emit(e)
+	c.w.Close()
+	fmt.Printf("recorded %d events (abandoned: a library call did not return)\n", c.w.N)
+	os.Exit(0)
+}
+
 func main() {
 	prop := flag.String("prop", "", "property id")
 	seed := flag.Int64("seed", 1, "seed")
